@@ -990,7 +990,7 @@ var svcSpec = kit.Spec[SvcCase]{
 	Name:     "service",
 	Rule:     "random allowlist (default / NewAllowlist / overriding / caller-implemented bounds), pool of 3..12 honest blocks over 15 hash functions with digest lengths around the limits, blockstore pre-seeded with arbitrary (also rejected) blocks, honest recording exchange holding the rejected blocks; history of AddBlock/AddBlocks/GetBlock/GetBlocks/DeleteBlock, gets through the service, NewSession, ContextWithSession, EmbedSessionInContext; non-trivial = some AddBlocks/GetBlocks batch mixes accepted and rejected CIDs",
 	Quick:    10000,
-	Thorough: 60000,
+	Thorough: 200000,
 	Gen:      genSvc,
 	Run:      runSvc,
 }
